@@ -120,13 +120,56 @@ def check_helpers():
     return msgs
 
 
+def _collection_cases():
+    """(expression as text, input, expected per the documented operation); inputs include non-dict mappings, tuples and generators"""
+    from types import MappingProxyType as MP
+    pair = lambda a, b=0: (a, b)      # noqa
+    inc = lambda x: x + 1             # noqa
+    even = lambda x: x % 2 == 0       # noqa
+    return {"pair": pair, "inc": inc, "even": even, "MP": MP}, [
+        ("F.into(pair)", {"a": 1, "b": 2}, (1, 2)), ("F.into(pair)", "MP({'a': 1, 'b': 2})", (1, 2)), ("F.into(pair)", [1, 2], (1, 2)), ("F.into(pair)", (5,), (5, 0)),
+        ("F.map(inc)", [1, 2], [2, 3]), ("F.map(inc)", (1, 2), [2, 3]), ("F.filter(even)", [1, 2, 4], [2, 4]), ("F.reduce(lambda a, b: a + b, 0)", [1, 2, 3], 6),
+        ("F.flatmap(lambda x: [x, x])", [1, 2], [1, 1, 2, 2]),
+        ("F.map_items(lambda k, v: (k + k, v + 1))", {"a": 1}, {"aa": 2}), ("F.map_keys(lambda k: k + k)", {"a": 1}, {"aa": 1}), ("F.map_values(inc)", {"a": 1}, {"a": 2}),
+        ("F.map_values(inc)", "MP({'a': 1})", {"a": 2}),
+        ("F.filter_items(lambda k, v: v > 1)", {"a": 1, "b": 2}, {"b": 2}), ("F.filter_keys(lambda k: k == 'a')", {"a": 1, "b": 2}, {"a": 1}), ("F.filter_values(even)", {"a": 1, "b": 2}, {"b": 2}),
+        ("F.map_values(inc) + F.into(pair)", {"a": 1, "b": 2}, (2, 3)), ("F.filter_values(even) + F.into(pair)", {"a": 2, "b": 3}, (2, 0)),
+        ("F.map_keys(lambda k: k) + F.map_values(inc)", {"a": 1}, {"a": 2}),
+        ("F.concat([3])", [1, 2], [1, 2, 3]), ("F.append(3)", [1, 2], [1, 2, 3]), ("F.intersect({2, 3})", {1, 2}, {2}), ("F.union({3})", {1}, {1, 3}),
+        ("F.difference({2})", {1, 2}, {1}), ("F.symmetric_difference({2, 3})", {1, 2}, {1, 3}),
+        ("F.get_from({'k': 5})", "k", 5), ("F.add(1)", 2, 3), ("F.multiply(3)", 2, 6), ("F.eq(2)", 2, True), ("F.instance_of(int)", 2, True),
+        ("F.all(even, lambda x: x > 0)", 2, True), ("F.any(even, lambda x: x > 5)", 3, False), ("F.invert(even)", 3, True),
+    ]
+
+
+def check_collection_helpers():
+    import labrea.functions as F
+    env, cases = _collection_cases()
+    env = dict(env, F=F)
+    msgs = []
+    for text, x, want in cases:
+        try:
+            step = eval(text, env)
+            xin = eval(x, env) if isinstance(x, str) and x.startswith("MP(") else x
+            got = step.transform(xin, {})
+            if hasattr(got, "__iter__") and not isinstance(got, (list, tuple, dict, set, str)):
+                got = dict(got) if hasattr(got, "keys") else list(got)
+            if isinstance(want, list) and isinstance(got, tuple):
+                got = list(got)
+        except Exception as e:  # noqa
+            got = f"raised {type(e).__name__}: {e}"
+        if got != want:
+            msgs.append(f"{text} applied to {x!r} = {got!r}, documented operation gives {want!r}")
+    return msgs
+
+
 def replay(case):
-    msgs = check_helpers() if case.get("helpers") else check(case["names"], case["options"])
+    msgs = (check_helpers() + check_collection_helpers()) if case.get("helpers") else check(case["names"], case["options"])
     return bool(msgs), f"case={case}\n" + ("\n".join(msgs[:6]) or "holds")
 
 
 def search(seed=0, budget=40):
-    if check_helpers():
+    if check_helpers() or check_collection_helpers():
         return {"module": "harness.pipeline_search", "case": {"helpers": True}}, 1
     rnd = random.Random(seed)
     steps, _ = universe()
